@@ -202,6 +202,26 @@ def run_pool(modname, fname, args, env=None, nproc=None, progress=None, task_tim
     return results
 
 
+def cap_findings(findings, per_signature=4, total=400):
+    """Keep the first few findings of every distinct signature (never let one family hide another)."""
+    seen = Counter()
+    out = []
+    for f in findings:
+        key = json.dumps(jsonable(f.get("signature", {})), sort_keys=True)
+        seen[key] += 1
+        if seen[key] <= per_signature and len(out) < total:
+            out.append(f)
+    return out
+
+
+def too_many(findings, limit=25):
+    """Stop exploring a work unit only when many DISTINCT violation families were seen, so a known
+    family can never hide a different violation behind it."""
+    if len(findings) < limit:
+        return False
+    return len({json.dumps(jsonable(f.get("signature", {})), sort_keys=True) for f in findings}) >= limit
+
+
 def chunked(seq, n):
     seq = list(seq)
     return [seq[i : i + n] for i in range(0, len(seq), n)]
